@@ -168,6 +168,11 @@ func (m *TargetsDiscovery) Run(ctx context.Context, sdChan <-chan map[string][]*
 }
 
 func (m *TargetsDiscovery) translateTargets(targets map[string][]*targetgroup.Group) map[string][]*SDTargets {
+	// the job table is read and the result is stored under one lock: a reload between the two
+	// would otherwise re-insert the targets of a job it has just removed
+	m.targetsLock.Lock()
+	defer m.targetsLock.Unlock()
+
 	actives := map[string][]*SDTargets{}
 	drops := map[string][]*SDTargets{}
 	for job, tsg := range targets {
@@ -197,9 +202,6 @@ func (m *TargetsDiscovery) translateTargets(targets map[string][]*targetgroup.Gr
 		actives[job] = allActive
 		drops[job] = allDrop
 	}
-
-	m.targetsLock.Lock()
-	defer m.targetsLock.Unlock()
 
 	for job, targets := range actives {
 		m.activeTargets[job] = targets
